@@ -199,7 +199,17 @@ impl Position {
         // TODO: should this return an error if no BBox?
         if let Some(bbox) = self.to_bbox() {
             match element.name.as_str() {
-                "" | "rect" | "use" | "image" | "svg" | "foreignObject" => {
+                "point" => {
+                    let (x, y) = bbox.locspec(LocSpec::TopLeft);
+                    if self.has_x_position() {
+                        element.set_attr("x", &fstr(x + self.dx.unwrap_or(0.)));
+                    }
+                    if self.has_y_position() {
+                        element.set_attr("y", &fstr(y + self.dy.unwrap_or(0.)));
+                    }
+                    element.remove_attrs(&["dx", "dy", "x2", "y2", "cx", "cy"]);
+                }
+                "" | "rect" | "box" | "use" | "image" | "svg" | "foreignObject" => {
                     let width = bbox.width();
                     let height = bbox.height();
                     let (x1, y1) = bbox.locspec(LocSpec::TopLeft);
@@ -390,6 +400,12 @@ impl From<&SvgElement> for Position {
             if let Some(Ok(h)) = h.map(|h| strp(h.as_ref())) {
                 p.height = Some(h);
             }
+        }
+
+        // a point has no extent, so any one position per axis (x, x2 or cx) places it
+        if value.name == "point" {
+            p.width = Some(0.);
+            p.height = Some(0.);
         }
 
         // if circle / ellipse, get width / height from r / rx / ry
